@@ -11,6 +11,9 @@ HARNESSES = {
     'K-fname-len': dict(path='rolling::directory::verif_kani::k_fname_len', fn='k_fname_len', bounded=False, bound='all lengths 0..=32 except 24, all byte contents; loop-free'),
     'E-fname-rt': dict(kind='enum', path='rolling::file_number::verif_enum::e_fname_rt', fn='e_fname_rt', bounded=True, bound='NATIVE ENUMERATION (cargo test, not symbolic): every d*10^k and 2^k with both neighbours, u64::MAX, 200000 pseudo-random numbers: name is wal- + 20 digits and parses back'),
     'E-c06': dict(kind='enum', path='multi_record_log::verif_enum_c06::e_c06_histories', fn='e_c06_histories', bounded=True, bound='NATIVE EXHAUSTIVE ENUMERATION OF HISTORIES (cargo test, not symbolic): two queues, every history of at most 4 operations out of 11 (small / block-spilling append, truncate all / half, delete+recreate, reopen): 16104 histories on real 4-block WAL files; the C06 statement checked after every truncate / delete / open'),
+    'E-hist': dict(kind='enum', tagged=True, path='multi_record_log::verif_enum_hist::e_hist_quick', fn='e_hist_quick', bounded=True, bound='NATIVE EXHAUSTIVE ENUMERATION OF HISTORIES (cargo test, not symbolic) against an executable reference model of the property texts, public API only: two queues; every history of 3 calls out of 22 (create / delete / append with automatic, next, last, past, future position and 1-record, empty-payload, 2-record, empty and 70 000-byte batches / truncate below, inside, at the end of, beyond the retained records / reopen) and every history of 5 calls out of 9 (the block-spilling, truncating, restarting ones): 69 697 histories under Always(Flush), a third each also under DoNothing and Always(FlushAndFsync); after EVERY call: return value, every accessor, every kind of range bound, memory accounting, directory content, reported WAL bytes against an independent walk over the frame headers; clean restart and process-crash image of fully persisted states'),
+    'E-hist-deep': dict(kind='enum', tagged=True, timeout=5400, path='multi_record_log::verif_enum_hist::e_hist_deep', fn='e_hist_deep', bounded=True, bound='as E-hist, every history of 4 calls out of 22 and every history of 6 calls out of 9: 765 697 histories'),
+    'E-dmg': dict(kind='enum', tagged=True, path='multi_record_log::verif_enum_dmg::e_dmg', fn='e_dmg', bounded=True, bound='NATIVE EXHAUSTIVE ENUMERATION OF SINGLE-SITE DAMAGE (cargo test, not symbolic), public API + raw edits of the WAL files: 37 layouts (an entry ending / starting with 0,1,6,7,8,9,40 bytes left in its block; 1-, 2-, 3-frame entries; a 4-record batch with a record boundary before / on / after a frame boundary; delete + re-create; entries spanning a file boundary; truncations); for EVERY frame: payload byte flipped (first / middle / last), checksum byte flipped, every other type byte in {0..5,255}, length +-1 / 0 / 65535 / to the block end / one beyond, block zeroed, torn tail at 4 cut points: 7288 images opened; oracles C10 (no panic), C08 (only appended records), C12 (batch whole / none / minus a truncated head), C09 (confined damage costs one entry), C07+C01 (intact log reopens identical)'),
     'E-gate': dict(kind='enum', path='rolling::directory::verif_enum::e_gate', fn='e_gate', bounded=True, bound='NATIVE EXHAUSTIVE ENUMERATION (cargo test, not symbolic): trackers of 1..=5 files (consecutive or gapped numbers), every subset pinned by a live clone: 124 cases'),
     'K-handles': dict(path='rolling::file_number::verif_kani::k_handles', fn='k_handles', bounded=True, bound='fixed shape: 3 appends over 2 files, truncate position symbolic in 0..=3'),
     'K-hdr': dict(path='frame::header::verif_kani::k_hdr_roundtrip', fn='k_hdr_roundtrip', bounded=False, bound='all 2^56 7-byte headers; loop-free'),
@@ -72,8 +75,10 @@ def run_harnesses(repo, verif, names):
                 # bounded stand-in by exhaustive enumeration, executed natively against the real code
                 cmd = ['cargo', 'test', '--offline', '--lib', h['path'], '--', '--exact']
                 env2 = dict(env); env2['CARGO_TARGET_DIR'] = os.path.join(verif, 'build', 'enum-target')
+                if os.path.isdir('/dev/shm') and os.access('/dev/shm', os.W_OK):
+                    env2['TMPDIR'] = '/dev/shm'   # the enumerations create ~10^5 short-lived WAL directories (tempfile::tempdir): memory-backed is 3x faster
                 t0 = time.time()
-                out, timed_out, oom = run_guarded(cmd, scratch, env2, TIMEOUT_S)
+                out, timed_out, oom = run_guarded(cmd, scratch, env2, h.get('timeout', TIMEOUT_S))
                 dt = time.time() - t0
                 rec = dict(name=n, harness=h['fn'], bounded=True, bound=h['bound'], seconds=round(dt, 1), cmd=' '.join(cmd), backend='native enumeration (cargo test)')
                 m = re.search(r'test result: (\w+)\. (\d+) passed; (\d+) failed', out)
@@ -84,6 +89,8 @@ def run_harnesses(repo, verif, names):
                     rec['status'] = 'SUCCESS'
                 elif int(m.group(3)) >= 1:
                     rec['status'] = 'FAILURE'
+                    if h.get('tagged'):
+                        rec['tagged_fails'] = [dict(tags=m2.group(1).split(','), line=m2.group(0)[:1500]) for m2 in re.finditer(r'^E-HIST-FAIL tags=(\S+) [^\n]*', out, re.M)]
                     pm = re.search(r"panicked at [^\n]*\n(?:[^\n]*\n){0,6}", out)
                     rec['failed_checks'] = (pm.group(0) if pm else '')[:600]
                     rec['output_tail'] = out[-3000:]
@@ -259,3 +266,28 @@ def write_replay(verif, prop, k):
     with open(p, 'w') as f:
         json.dump(rec, f, indent=1)
     return p
+
+
+def narrow_tagged(rec, prop):
+    """A tagged enumeration (E-hist) reports failing cases with the ids of the properties they contradict.  For the check of `prop` only
+    the cases tagged `prop` count; the others are listed as a note.  Returns the record, narrowed in place."""
+    if 'tagged_fails' not in rec or rec.get('status') != 'FAILURE':
+        return rec
+    mine = [t for t in rec['tagged_fails'] if prop in t['tags']]
+    other = [t for t in rec['tagged_fails'] if prop not in t['tags']]
+    rec['other_properties_failing'] = sorted(set(x for t in other for x in t['tags']))
+    if not rec['tagged_fails']:
+        # the test failed without a tagged line (harness panic outside a history): tool condition, not a verdict
+        rec['status'] = 'TOOL'
+        return rec
+    if not mine:
+        rec['status'] = 'SUCCESS'
+        rec['note'] = 'failing histories exist but none contradicts %s (they concern %s)' % (prop, ', '.join(rec['other_properties_failing']))
+        for k in ('failed_checks', 'concrete', 'replayed'):
+            rec.pop(k, None)
+        return rec
+    rec['failed_checks'] = mine[0]['line']
+    rec['concrete'] = 'failing history reported by the enumeration itself (it runs the real code): ' + mine[0]['line']
+    rec['all_failing_cases_for_this_property'] = [t['line'] for t in mine]
+    rec['replayed'] = dict(cmd=rec['cmd'] + '   (in a copy of /repo with /verif/enum/*.rs appended)', failing_history=mine[0]['line'])
+    return rec
